@@ -7,7 +7,7 @@
 (* state the JSON-only law (C04); with EMIT=1 every case is printed with   *)
 (* the predicted JSON image for replay in the real code.                   *)
 (***************************************************************************)
-EXTENDS Universe, Serialization, Json, IOUtils
+EXTENDS Universe, JsonSchema, Json, IOUtils
 
 CONSTANTS Tier
 VARIABLES T, O, v, res, phase
@@ -87,6 +87,27 @@ Bijective(t, seen) ==
     [] t.k = "any"   -> FALSE
     [] OTHER -> TRUE
 
+\* C07: the serialized datum validates against the serialization schema built under the same
+\* options (exclude_defaults / exclude_none as settings); known design gaps excluded
+RECURSIVE UsesFeatureS(_, _, _)
+UsesFeatureS(t, feat, seen) ==
+  CASE t.k = "obj" -> t.cls \notin seen /\ \E i \in DOMAIN UClasses[t.cls].fields :
+                          (feat = "flattened" /\ UClasses[t.cls].fields[i].flat)
+                          \/ UsesFeatureS(UClasses[t.cls].fields[i].type, feat, seen \cup {t.cls})
+    [] t.k = "newtype" -> UsesFeatureS(t.sup, feat, seen)
+    [] t.k = "annot" -> UsesFeatureS(t.t, feat, seen)
+    [] t.k = "coll"  -> UsesFeatureS(t.e, feat, seen)
+    [] t.k = "tuple" -> \E i \in DOMAIN t.es : UsesFeatureS(t.es[i], feat, seen)
+    [] t.k = "map"   -> UsesFeatureS(t.vt, feat, seen)
+    [] t.k = "union" -> \E i \in DOMAIN t.alts : UsesFeatureS(t.alts[i], feat, seen)
+    [] t.k = "dunion" -> feat = "discriminated" \/ \E i \in DOMAIN t.alts : UsesFeatureS(t.alts[i], feat, seen)
+    [] t.k = "any" -> feat = "any"
+    [] OTHER -> FALSE
+SerSchemaAccepts == Validates(Ctx(O), "s", SchemaOf(Ctx(O), "s", T, <<>>, {}), AsData(res))
+SerValidates ==
+  (phase = "done" /\ ~HasSErr(res) /\ \A g \in {"flattened", "discriminated"} : ~UsesFeatureS(T, g, {}))
+     => SerSchemaAccepts
+
 Init == /\ T \in Types /\ O \in SOptsFor(T)
         /\ v = DNull /\ res = DNull /\ phase = "type"
 PickValue == /\ phase = "type" /\ v' \in ValuesFor(T) /\ phase' = "value" /\ UNCHANGED <<T, O, res>>
@@ -95,7 +116,10 @@ Run == /\ phase = "value"
        /\ phase' = "done" /\ UNCHANGED <<T, O, v>>
        /\ Emit => PrintT(ToJson([type |-> T, opts |-> O, value |-> v, expect |-> res',
                                  any |-> SerAny(Ctx(O), v),
-                                 bij |-> Bijective(T, {}), ambig |-> Ambig(Ctx(O), T, {})]))
+                                 bij |-> Bijective(T, {}), ambig |-> Ambig(Ctx(O), T, {}),
+                                 gaps |-> {g \in {"flattened", "discriminated"} : UsesFeatureS(T, g, {})},
+                                 saccept |-> IF HasSErr(res') THEN TRUE
+                                             ELSE Validates(Ctx(O), "s", SchemaOf(Ctx(O), "s", T, <<>>, {}), AsData(res'))]))
 Next == PickValue \/ Run
 Spec == Init /\ [][Next]_vars
 
